@@ -15,7 +15,8 @@ CHECKS = {
              "tokens; every transition of the dumped graph (n=4, content model) is executed on the real TokenTree and "
              "the projected state compared, so the code is shown to follow the spec on exactly the space the property "
              "quantifies over; larger random trees are checked as TLC-validated traces."
-             " Offers are also rebuilt from stored rows (Token.from_database_tuple), including rows whose content column does not hash to the signed pointer.",
+             " Offers are also rebuilt from stored rows (Token.from_database_tuple), including rows whose content column does not hash to the signed pointer."
+             " Wire strings (unserialize_public over chunks in any order) and every way of constructing a tree view are modelled.",
         note="Signature primitives and SHA3 are trusted; >6 tokens only sampled (24-token recorded histories)."),
 }
 
@@ -29,7 +30,8 @@ CHECKS.update({
         text="TLC exhausts the abstract mutation space; every mutation class is applied at every byte position of real captured "
              "datagrams of all eight shipped overlay classes and TLC judges each observed handler entry / verified-peer delta "
              "against the spec with an independent signature oracle."
-             " The verified-peer table itself is spec state (book): long-lived receiver sessions (history made by the real code, then forged input from the sender's, the attacker's and a third address) are validated event by event; a rejected datagram must leave the table unchanged (RejectInert, BookLegit).",
+             " The verified-peer table itself is spec state (book): long-lived receiver sessions (history made by the real code, then forged input from the sender's, the attacker's and a third address) are validated event by event; a rejected datagram must leave the table unchanged (RejectInert, BookLegit)."
+             " Records an overlay keeps about a key outside the verified-peer table and the parsed-key memory (crowds of thousands of keys) are spec state as well (NotesLegit, KeyResolution).",
         note="Signature primitives of ipv8_rust_tunnels trusted; mutations are the listed finite family over real captures."),
     "C04": dict(
         category="model_checking", design_ref="DESIGN.md section 4, Onion.tla + C04",
@@ -39,7 +41,8 @@ CHECKS.update({
         text="TLC checks ExitIntegrity, ReturnIntegrity, LayerDepth, NoRepeatOnLinks on the spec exhaustively (3 hops, 1 attack "
              "step; 1-2 hops, 2 steps in thorough) and on every recorded execution of the real nodes, including runs that alter "
              "every header byte and sampled (thorough: every) body byte of in-flight cells on every link in both directions, the exit "
-             "socket's queue while its outside sockets open, and linked hidden-service (e2e) circuits with cells forged by the rendezvous point.",
+             "socket's queue while its outside sockets open, and linked hidden-service (e2e) circuits with cells forged by the rendezvous point."
+             " Dual-stack hosts (fabricated cells on both interfaces), tunnel data messages arriving from outside at an exit socket (OutsideNested) and cells turned round by the rendezvous point (RPReflect) are adversary actions of the spec and steps of the driver.",
         note="AEAD/HKDF/X25519 idealised (Dolev-Yao); PythonCryptoEndpoint only; for e2e circuits the rendezvous link and the shared "
              "key are set up by the harness on the real tables (create-e2e/link-e2e handshake not driven); test cells not driven."),
     "C06": dict(
@@ -50,7 +53,8 @@ CHECKS.update({
         text="Exhaustive over the header bytes the classifier inspects (TLC computes the expected verdicts), model checking of "
              "the exit-socket life cycle, and TLC-validated traces of the real emission path in both directions for every "
              "payload class x destination kind x source x socket state."
-             " Addresses are part of the state (asked / sent-to / heard-from history per socket): a forbidden datagram gains nothing from earlier allowed traffic with the same host (flow-cache deviations are spec-level controls).",
+             " Addresses are part of the state (asked / sent-to / heard-from history per socket): a forbidden datagram gains nothing from earlier allowed traffic with the same host (flow-cache deviations are spec-level controls)."
+             " Run-time reconfiguration of the flags, replayed signed messages of the previous hop, and packets that share everything a rule does not read with an earlier packet (the filter has no memory) are modelled.",
         note="Dropping allowed traffic is not a violation (safety reading); a domain resolving to 0.0.0.0 is outside the property."),
     "C10": dict(
         category="model_checking", design_ref="DESIGN.md section 4, C10",
@@ -60,7 +64,8 @@ CHECKS.update({
         text="TLC exhausts all interleavings of add/pop/timer fire/task run/passthrough/clear/shutdown for <=3 (thorough 4) caches; "
              "every edge of the 2-cache graph and simulated 3/4-cache behaviours are executed on the real code with pops/adds "
              "nested in on_timeout; larger random populations are validated as traces."
-             " The response path (retrieve_cache) is its own action with handler scripts (raise, pop, nested add / response, coroutine bodies) and a claim counter: a request is handed to a claimant at most once.",
+             " The response path (retrieve_cache) is its own action with handler scripts (raise, pop, nested add / response, coroutine bodies) and a claim counter: a request is handed to a claimant at most once."
+             " Several futures per request and tear-down sequences (shutdown_task_manager, repeated shutdown) are modelled.",
         note="Single event-loop thread; ready handles may run in any order in the spec (superset of asyncio FIFO)."),
     "C19": dict(
         category="fault_enumeration", design_ref="DESIGN.md section 4, C19",
@@ -70,7 +75,8 @@ CHECKS.update({
         text="Every crash point of the scripted workloads is enumerated against the real code and the resulting trace is "
              "judged by TLC (AckedDurable, NoPartialRecord, ReopenOk, PseudonymVerifies); TLC also explores all crash "
              "placements of <=3 (thorough 4) record workloads on the spec."
-             " with-database blocks (held / acknowledged at block exit), the commit gate after an aborted block and the pseudonym rebuilt by a fresh process (tree, credentials, attestations compared object by object) are modelled.",
+             " with-database blocks (held / acknowledged at block exit), the commit gate after an aborted block and the pseudonym rebuilt by a fresh process (tree, credentials, attestations compared object by object) are modelled."
+             " Nested blocks, the order a whole credential is written in, record forms (the same record stored again with other bytes) and errors from the database at COMMIT are modelled.",
         note="sqlite WAL atomicity/durability under process kill is trusted; kills land between statements, not inside a write."),
 })
 
@@ -83,7 +89,8 @@ CHECKS.update({
                   "validated by TLC (WireTrace.tla)",
         text="The bytes are computed by the TLA+ reference, not by the implementation: every shipped message class (also nested and "
              "listed, offsets 0..3) and every packer over boundary domains is compared byte for byte, field for field and offset "
-             "for offset; a class or packer missing from the table makes the check fail as machinery error.",
+             "for offset; a class or packer missing from the table makes the check fail as machinery error."
+             " WireReg.tla decides what a format name means per serializer over the life of a process (overlays loading, run-time add_packer), WireDef.tla decides message types built with every definition mechanism incl. derived classes.",
         note="IEEE-754 layout of f/d and arbitrary Unicode not modelled. Known finding: arrayH-* use host byte order (see known_findings.json)."),
     "C07": dict(
         category="model_checking", design_ref="DESIGN.md section 4, C07",
@@ -93,7 +100,8 @@ CHECKS.update({
         text="Every interleaving of the quantifier's events to depth 7 is explored on the spec; all 3-event paths, a cover of the "
              "4-event graph and long simulated behaviours are executed on the real objects with exact state comparison; the "
              "abstract layer (never raw for anonymised prefixes, only ready right-length IPv8-exit circuits, bounded queue) judges."
-             " Overlay instances are spec state: further instances with the same prefix are loaded and unloaded on the shared endpoint and late / replaced instances send (SwitchFollowsRequests).",
+             " Overlay instances are spec state: further instances with the same prefix are loaded and unloaded on the shared endpoint and late / replaced instances send (SwitchFollowsRequests)."
+             " Every way a circuit ends (close / remove_circuit variants, removal timers, expiry) is modelled: what Circuit.state reports must follow the take-down (StateFollowsClose).",
         note="Circuits reach their states through add_hop/close on real objects, not through a network handshake."),
     "C11": dict(
         category="model_checking", design_ref="DESIGN.md section 4, C11",
@@ -104,7 +112,8 @@ CHECKS.update({
         text="Silence after unload is decided by TLC on recorded executions of the real overlays (sends, handler entries, task "
              "steps, cache time-outs, outside sockets) with the unload point enumerated; the task-manager clauses are decided by "
              "exhaustive replay of the spec's state graph on the real TaskManager."
-             " Bootstrapper initialisations (incl. the UDP broadcast socket opened asynchronously) and exit-socket removals pending at unload time are spec state; unload is requested at every event of those windows.",
+             " Bootstrapper initialisations (incl. the UDP broadcast socket opened asynchronously) and exit-socket removals pending at unload time are spec state; unload is requested at every event of those windows."
+             " Opening an outside socket is a multi-step sequence with refusals and cancellation (NoOrphanSocket).",
         note="Only sends on the simulated wire / outside transports are seen; events while unload() is still running are unconstrained."),
     "C17": dict(
         category="model_checking", design_ref="DESIGN.md section 4, C17",
@@ -113,7 +122,8 @@ CHECKS.update({
                   "honest and dishonest peers; recorded sessions validated by TLC (IdentityTrace.tla)",
         text="TLC explores registrations x disclosures x clock x permissions; every transition is executed on the real node and the "
              "datagrams it emits, its Attestations/Metadata rows and token trees are compared with the TLC state; SignsOnlyConsented, "
-             "StoresOnlyValidlySigned, TokensOnlyUpToPermitted are evaluated on every recorded session.",
+             "StoresOnlyValidlySigned, TokensOnlyUpToPermitted are evaluated on every recorded session."
+             " One-shot storage faults on the Attestations / Metadata tables with the handlers in effect order (SentOnlyRecorded).",
         note="Only well-formed messages; 299 s and 301 s sides of the window, not the exact instant."),
     "C20": dict(
         category="translation_validation", design_ref="DESIGN.md section 4, C20",
@@ -121,7 +131,8 @@ CHECKS.update({
                   "calling conventions) and computes bytes/decoded values; each definition is materialised as plain, vp_compile'd and "
                   "dataclass form and compared; all shipped VariablePayload classes in shipped/re-interpreted/recompiled form",
         text="Translation validation of the payload code generator against the interpreted definition with the TLA+ meaning as "
-             "third opinion, exhaustive over definitions of <=2 (thorough 3) fields over 13 field kinds, simulated up to 12 fields.",
+             "third opinion, exhaustive over definitions of <=2 (thorough 3) fields over 13 field kinds, simulated up to 12 fields."
+             " Non-field class members and the annotation language with its type-to-format mapping (AnnotationsMean) are part of the definition space.",
         note="Generated field names only; dataclass default_factory outside the explored space."),
 })
 
@@ -134,7 +145,8 @@ CHECKS.update({
                   "bytes, every truncation of captures; deliveries and decodes validated by TLC (ReceiveTrace / WireStrictTrace)",
         text="Totality (nothing raises into the transport), prefix isolation and all-listeners-served are decided by TLC on every "
              "recorded delivery of the production receive path; for decoding, an event is accepted iff the code rejected the bytes "
-             "or the strict TLA+ decoder accepts them with the same parts and an end inside the buffer.",
+             "or the strict TLA+ decoder accepts them with the same parts and an end inside the buffer."
+             " Circuit tables and the listener registry are state: single removals, time-outs, sweeps, registrations sharing a prefix (RegistryServed), and the exit socket's own receive path.",
         note="Beyond 64 bytes inputs derive from captures and seeded samples; UTF-8/key validity are content checks the code may reject."),
     "C12": dict(
         category="model_checking", design_ref="DESIGN.md section 4, C12",
@@ -142,7 +154,8 @@ CHECKS.update({
                   "sequence to depth 3 (thorough 4) and every (state, call) pair of the dumped graphs replayed on the real Network with "
                   "real Peer objects; simulate behaviours replayed; random 200-call histories validated by TLC (NetworkTrace.tla)",
         text="LookupsAgree / QueriesPure / RemovedIsGone / ReAddWorks / BlacklistedNeverVerified / SnapshotRoundTrip are checked by TLC "
-             "on the spec and the real Network is compared with TLC's successor state and return value after every call.",
+             "on the spec and the real Network is compared with TLC's successor state and return value after every call."
+             " The caller's side of discover_services (collections of every kind, mutated afterwards, one-shot iterators) and remove_peer through another Peer object with the history of advertisements are modelled.",
         note="3x3x2 exhausted to depth 3 (4), deeper only in smaller universes and by sampling; answers compared as sets."),
     "C13": dict(
         category="model_checking", design_ref="DESIGN.md section 4, C13",
@@ -151,7 +164,8 @@ CHECKS.update({
                   "replayed on real Community nodes behind simulated NAT boxes; random schedules validated by TLC in strict and "
                   "observed mode (the simulator itself is validated against the spec)",
         text="Reach (mutual verification after the follow-up walk), LanMeet and AsksPuncture hold in every reachable state of every "
-             "configuration, and the real nodes follow the spec step by step on a network that enforces mapping and filtering.",
+             "configuration, and the real nodes follow the spec step by step on a network that enforces mapping and filtering."
+             " Lost NAT mappings, Lamport clocks beyond 2^16, several overlays on one Network and IPv6 neighbours are modelled.",
         note="Cone NATs only, public introducer, no mapping expiry/hairpin; premise (puncture before follow-up walk) encoded as guard."),
     "C15": dict(
         category="model_checking", design_ref="DESIGN.md section 4, C15",
@@ -169,7 +183,8 @@ CHECKS.update({
                   "Peng-Bao range proofs with fresh keys recorded and validated by TLC (AttestTrace / RangeProofTrace)",
         text="Field laws hold on the reference for p in {2,5,11,10007}; the implementation agrees on all 48^2 operand pairs (p=2), all "
              "{0,1}^12 vectors (p=10007, bilinearity argument for all moduli) and samples; the exact-match protocol is model-checked "
-             "for all 8-bit values and all challenge orders and real runs are judged by TLC.",
+             "for all 8-bit values and all challenge orders and real runs are judged by TLC."
+             " SchemaNode.tla / ProofSession.tla decide sessions of proofs on long-lived nodes (format names resolved per step, reference profile per format), VerifyRounds.tla the rounds of one verification with abandoned rounds and late answers.",
         note="Pairings, prime generation, soundness against cheating provers and zero-knowledge are outside TLA+ (stated limits)."),
 })
 
@@ -184,7 +199,8 @@ CHECKS.update({
         text="Isolation invariants and action properties hold in every state/step TLC explores and on every recorded execution of "
              "the real nodes; a scripted run sends a create for every circuit id in use at every node (both sides of the 60 s "
              "cache) and forged/replayed destroys from non-neighbours."
-             " Destroys signed by the attacker's own key from its own and every spoofed source address, replayed genuine destroys, and created answers re-labelled with another circuit's id are part of the scripted families.",
+             " Destroys signed by the attacker's own key from its own and every spoofed source address, replayed genuine destroys, and created answers re-labelled with another circuit's id are part of the scripted families."
+             " Also: destroys under signatures that do not verify, the address a circuit's cells go to, a create race during a suspended admission decision, an application's own admission policy, garbage cells and a circuit's record of its last activity.",
         note="Symbolic AEAD/DH; the signature check of destroy itself is C01; replayed destroys are sent with the spoofed source "
              "of their signer (address re-learning of the community layer is not modelled)."),
     "C08": dict(
@@ -196,7 +212,8 @@ CHECKS.update({
         text="TLC shows that no manipulation (wrong identifier, other circuit, substituted ephemeral with correct auth, flipped auth/"
              "candidates, duplicates, answers after retry) yields a hop key known to anyone but the selected peer, and the real "
              "originator/relays follow the spec step by step under those manipulations."
-             " PathAgreement (an established hop is never re-routed) is checked with honest nodes only, two exits and answers of abandoned attempts arriving after the retry, and with an admission decision that really suspends (SuspendJoin) under duplicated creates.",
+             " PathAgreement (an established hop is never re-routed) is checked with honest nodes only, two exits and answers of abandoned attempts arriving after the retry, and with an admission decision that really suspends (SuspendJoin) under duplicated creates."
+             " HopByRightAnswer (the hop list is a path) is checked under altered candidate lists with a second first-hop candidate to retry with.",
         note="X25519/HMAC/HKDF idealised; a malicious relay on the path is represented by manipulations of the created it forwards."),
     "C09": dict(
         category="fault_enumeration", design_ref="DESIGN.md section 4, Onion.tla + C09",
@@ -207,7 +224,8 @@ CHECKS.update({
                   "closed outside sockets at the deadline, JoinLimit, RelayEarlyBudget)",
         text="Bounded-time reclamation is an invariant of the timed spec and is evaluated by TLC on every enumerated fault run of the "
              "real nodes with their default timers; join limit and relay_early budget are action property / invariant."
-             " The join limit is driven to its boundary (limit 1..4, two originators) and validated with MaxJoined = limit.",
+             " The join limit is driven to its boundary (limit 1..4, two originators) and validated with MaxJoined = limit."
+             " Duplicated control messages, a half-open exit socket (Transport4Ready) and a cancelled circuit.ready future are part of the scenarios.",
         note="Bounds from the default settings in force; max_time (1 h) as last resort is not reached; pings are off in the MC configs."),
     "C14": dict(
         category="model_checking", design_ref="DESIGN.md section 4, C14",
